@@ -233,7 +233,18 @@ def shard(args):
                         for d in dis:
                             out["disagreements"].append({"why": d, "replay": dict(replay, word=word)})
                     else:
+                        # … with reads in between: copies of the list-valued links made while the simulated values are on
+                        # (what a report or a form does), which wrap the linked objects once more
+                        word = [x for w in word for x in ([w, "read"] if w == "set" and rng.random() < 0.7 else [w])]
                         for w in word:
+                            if w == "read":
+                                from efootprint.abstract_modeling_classes.list_linked_to_modeling_obj import ListLinkedToModelingObj
+                                for o_ in list(live.rs.objs.values()):
+                                    for v_ in list(o_.__dict__.values()):
+                                        if isinstance(v_, ListLinkedToModelingObj):
+                                            copy.copy(v_)
+                                out["reads"] = out.get("reads", 0) + 1
+                                continue
                             (sim.set_updated_values if w == "set" else sim.reset_values)()
                             out["toggles"] += 1
                 if snapshot.diff(before, snapshot.deep(live.rs.objs)):
